@@ -8,6 +8,8 @@ import (
 	"sort"
 	"strings"
 	"time"
+
+	"golang.org/x/tools/go/ssa"
 )
 
 var (
@@ -45,6 +47,8 @@ func main() {
 		cmdSweep(os.Args[2:])
 	case "mods":
 		cmdMods(os.Args[2:])
+	case "frames":
+		cmdFrames(os.Args[2:])
 	default:
 		usage()
 	}
@@ -193,4 +197,52 @@ func sortedFuncNames(p *Program, rx *regexp.Regexp) []string {
 	}
 	sort.Strings(r)
 	return r
+}
+
+func entryRoots(p *Program) []*ssa.Function {
+	var roots []*ssa.Function
+	for _, n := range []string{"distiller.Apply", "distiller.ApplyForReader", "distiller.ApplyForFile", "distiller.ApplyForURL"} {
+		if f := p.funcs[n]; f != nil {
+			roots = append(roots, f)
+		}
+	}
+	return roots
+}
+
+func cmdFrames(args []string) {
+	p := mustLoad()
+	for _, root := range entryRoots(p) {
+		ra := NewRegionAnalysis(p)
+		t0 := time.Now()
+		ra.RunRoots([]*ssa.Function{root}, func(fn *ssa.Function, i int) AV {
+			if pointerLike(fn.Params[i].Type()) {
+				return AV{R: aC, E: aC}
+			}
+			return AV{}
+		})
+		n := 0
+		fmt.Printf("=== root %s\n", qualName(root))
+		for _, w := range ra.sortedWrites() {
+			if w.Atoms&(aC|aG) != 0 {
+				fmt.Printf("%-8s %s  %s  %s\n", w.Atoms, w.Fn, w.Pos, w.What)
+				n++
+			}
+		}
+		fmt.Printf("%d write sites examined, %d may hit caller/global memory; %d functions reached; %d memo entries; %.1fs\n", len(ra.writes), n, len(ra.reached), len(ra.memo), time.Since(t0).Seconds())
+		for k := range ra.unresolved {
+			fmt.Println("unresolved:", k)
+		}
+		if len(args) > 0 && args[0] == "-contents" {
+			var ks []string
+			for k, v := range ra.contents {
+				if (v.R|v.E)&(aC|aG) != 0 {
+					ks = append(ks, fmt.Sprintf("%s  R=%s E=%s", k, v.R, v.E))
+				}
+			}
+			sort.Strings(ks)
+			for _, k := range ks {
+				fmt.Println("contents:", k)
+			}
+		}
+	}
 }
